@@ -148,6 +148,9 @@ def run(prog, rep, tier, cfg):
         c20.exec_gates(prog, rep, X, c20.type_discr(prog), 'init:')
     except AnchorMissing as e:
         rep.anchor_missing('hand-gates', e)
+    # ---- error discipline: no Result produced in these crates is silently discarded
+    X.no_dropped_results('K14', 'results-not-discarded', [c for c in prog.crates if c.startswith('fil_actor')], 'no Result of a call is discarded')
+
 
 
 def restrict_rules(prog, rep):
